@@ -34,6 +34,9 @@ pub struct PeerState {
     pub datas: Vec<Value>, // decoded header of each data frame written (firmware upload): raw bytes
     pub chunk: usize,      // max bytes per poll_read (0 = unlimited)
     pub wchunk: usize,     // max bytes accepted per poll_write (0 = unlimited): partial writes
+    pub wfail: usize,      // the wfail-th frame cannot be written: every write fails once wfail - 1 frames are through (0 = never)
+    pub nw: usize,         // frames written so far
+    pub wfail_logged: bool,
 }
 
 #[derive(Clone, Default)]
@@ -69,6 +72,13 @@ impl AsyncRead for Peer {
 impl AsyncWrite for Peer {
     fn poll_write(self: Pin<&mut Self>, _: &mut Context<'_>, buf: &[u8]) -> Poll<std::io::Result<usize>> {
         let mut s = self.0.lock().unwrap();
+        if s.wfail > 0 && s.nw + 1 >= s.wfail {
+            if !s.wfail_logged {
+                s.wfail_logged = true;
+                s.events.push(ev("w_fail", "", "", 0));
+            }
+            return Poll::Ready(Err(std::io::Error::new(std::io::ErrorKind::BrokenPipe, "the connection refuses the write")));
+        }
         let take = if s.wchunk > 0 { buf.len().min(s.wchunk) } else { buf.len() };
         let buf = &buf[..take];
         s.wbuf.extend_from_slice(buf);
@@ -104,6 +114,12 @@ impl AsyncWrite for Peer {
                 s.datas.push(json!({"kind": kind, "bytes": frame}));
             }
             s.events.push(ev("w", kind, "", 0));
+            s.nw += 1;
+            if s.wfail > 0 && s.nw + 1 >= s.wfail {
+                // the rest of this write (if any) belongs to the frame that cannot be written
+                s.wbuf.clear();
+                break;
+            }
         }
         Poll::Ready(Ok(buf.len()))
     }
@@ -133,6 +149,7 @@ pub fn make_peer(case: &Value) -> Peer {
         s.cmd_cf = (req[0].as_u64().unwrap() as u8, req[1].as_u64().unwrap() as u8);
         s.chunk = case.get("chunk").and_then(|c| c.as_u64()).unwrap_or(0) as usize;
         s.wchunk = case.get("wchunk").and_then(|c| c.as_u64()).unwrap_or(0) as usize;
+        s.wfail = case.get("wfail").and_then(|c| c.as_u64()).unwrap_or(0) as usize;
     }
     p
 }
